@@ -57,12 +57,20 @@ def main():
         rcb, outb = sh("go build ./dnsdata/... ./db/... ./dnsserver/... ./metrics/... ./fbserver/... ./whoami/... && (cd go-cdb-mods && go build ./...)", cwd)
         log["build"] = {"rc": rcb, "tail": outb[-600:]}
         tests = ("go test -count=1 -skip 'TestSeed' ./dnsdata/... ./metrics/... ./cgo-rocksdb/... ./tlsconfig/... && "
-                 "(cd go-cdb-mods && go test -count=1 -skip 'TestSeed' ./...) && "
-                 "go test -count=1 -skip 'TestSeed' -ldflags=-checklinkname=0 ./db/ ./dnsserver/ ./fbserver/ ./whoami/")
+                 "(cd go-cdb-mods && go test -count=1 -skip 'TestSeed' ./...)")
         rct, outt = sh(tests, cwd)
-        if rct != 0:   # one retry: a few existing tests are timing sensitive under load
+        if rct != 0:
             rct, outt = sh(tests, cwd)
         log["existing_tests_with_patch"] = {"rc": rct, "cmd": tests, "tail": outt[-800:]}
+        # packages that only link with -checklinkname=0 (not part of the pinned 365).  dnsserver's reload tests
+        # are timing sensitive and crash now and then on a loaded machine also WITHOUT any patch: up to 4 attempts
+        tests2 = "go test -count=1 -skip 'TestSeed' -ldflags=-checklinkname=0 ./db/ ./dnsserver/ ./fbserver/ ./whoami/"
+        for attempt in range(4):
+            rc2, out2 = sh(tests2, cwd)
+            if rc2 == 0:
+                break
+        log["linked_tests_with_patch"] = {"rc": rc2, "cmd": tests2, "attempts": attempt + 1, "tail": out2[-800:]}
+        rct = rct or rc2
         rc1, out1 = sh(demo_cmd, cwd)
         log["demo_with_patch"] = {"rc": rc1, "tail": out1[-1200:]}
         ok = rc0 == 0 and rcb == 0 and rct == 0 and rc1 != 0
